@@ -6,5 +6,6 @@ CONSTANTS
   Budget = 100000
   Ks = {2, 3, 5}
   Simulate = TRUE
+  Focus = {"coef", "norm", "dft", "big", "svp", "prod", "vmp", "load"}
 INVARIANTS TypeOk BudgetOk SourcesUnchanged Dump
 CHECK_DEADLOCK FALSE
